@@ -8,10 +8,11 @@
                                cold or a warm cache: every plan anybody obtains for `ty` is `build ty`, the
                                cache only ever holds pairs `(ty, build ty)`; results are those of a
                                sequential run / a fresh process.
-    2  `encoder_reuse`         for every history on an encoder, `…; Clear; encode m` behaves as on a new encoder
-                               (binary, JSON and text writers: all histories; XML writer: all histories in
-                               which no aborted call left an element open — the full statement is FALSE for
-                               the XML writer, see `xml_reuse_full_false`).
+    2  `encoder_reuse`         for every history on an encoder — including calls that panicked half-way and were
+                               recovered — `…; Clear; encode m` behaves as on a new encoder, on EVERY back end
+                               (`C20_reuse_full`). Before /repo 55f108f this was false of the XML writer
+                               (`old_xml_clear_after_abort`, `old_xml_reuse_full_false`): the defect this
+                               property found.
        `version_leaks_without_clear`   the honest companion: WITHOUT `Clear` the cell left by one message gates
                                the fields of a following header-less value. This is the documented contract of
                                `Clear` ("making the encoder reusable"), not a defect.
@@ -170,34 +171,26 @@ example : (run (schemaBuilder Gen.schema) (init [[0, 2], [2, 0]]) (roundRobin 2 
 
 /-! ## 2 — a reused encoder -/
 
-/-- 2a. **Every history** `h` (any calls, any messages, any versions, aborted calls leaving any junk), on the
-    binary, JSON or text encoder, from any starting state: after `Clear` the encoder is the fresh encoder —
-    whatever is done next (`ops`, e.g. `[encode m]`) produces the same state, hence the same `Bytes()`, and
-    the same outcomes as on a new encoder. -/
-theorem encoder_reuse (S : Schema) (b : Backend) (hb : b ≠ .xml) (st0 : Encoder) (h ops : List Op) :
+/-- 2a. **Every history** `h` (any calls, any messages, any versions, aborted calls leaving any junk — a cell,
+    partial output, open structures), on **every back end** (binary, XML, JSON, text), from any starting state:
+    after `Clear` the encoder is the new encoder — whatever is done next (`ops`, e.g. `[encode m]`) produces the
+    same state, hence the same `Bytes()`, and the same outcomes as on a new encoder. -/
+theorem encoder_reuse (S : Schema) (b : Backend) (st0 : Encoder) (h ops : List Op) :
     runOps S b st0 (h ++ .clear :: ops) =
       ((runOps S b fresh ops).1, (runOps S b st0 h).2 ++ true :: (runOps S b fresh ops).2) :=
-  reuse_gen S b st0 h ops (clearOp_nonxml hb _)
+  reuse_gen (clearOp b) S st0 h ops (clearOp_fresh b _)
 
-/-- 2b. In particular the bytes: `Bytes(h; Clear; encode m) = Bytes(new; encode m) = MarshalTTLV(m)`. -/
-theorem encoder_reuse_bytes (S : Schema) (b : Backend) (hb : b ≠ .xml) (h : List Op) (m : Msg) (j : Junk)
+/-- 2b. the full statement, on every back end: `state(h; Clear; ops) = state(new; ops)`. -/
+theorem C20_reuse_full (S : Schema) (b : Backend) (h ops : List Op) :
+    (runOps S b fresh (h ++ .clear :: ops)).1 = (runOps S b fresh ops).1 := by
+  rw [encoder_reuse S b fresh h ops]
+
+/-- 2c. In particular the bytes: `Bytes(h; Clear; encode m) = Bytes(new; encode m) = MarshalTTLV(m)`. -/
+theorem encoder_reuse_bytes (S : Schema) (b : Backend) (h : List Op) (m : Msg) (j : Junk)
     (bs : Bytes) (hm : marshal S m.d m.tag m.v = .ok bs) :
     (runOps S b fresh (h ++ [.clear, .encode m j])).1.bytes = bs := by
-  rw [encoder_reuse S b hb fresh h [.encode m j]]
+  rw [encoder_reuse S b fresh h [.encode m j]]
   exact (fresh_encode_bytes S b m j bs hm).1
-
-/-- 2c. The XML encoder, PARTIAL: the same for every history in which no aborted call left an element open
-    (in particular for every history whose calls all return normally). -/
-theorem encoder_reuse_xml_partial (S : Schema) (h ops : List Op) (hj : NoOpenJunk h) :
-    runOps S .xml fresh (h ++ .clear :: ops) =
-      ((runOps S .xml fresh ops).1, (runOps S .xml fresh h).2 ++ true :: (runOps S .xml fresh ops).2) :=
-  reuse_gen S .xml fresh h ops
-    (clearOp_xml (Or.inr (runOps_clean S .xml h fresh ⟨rfl, rfl⟩ hj).1))
-
-/-- the full statement one would like: on every back end. -/
-def C20_reuse_full : Prop :=
-  ∀ (S : Schema) (b : Backend) (h ops : List Op),
-    (runOps S b fresh (h ++ .clear :: ops)).1 = (runOps S b fresh ops).1
 
 /-- a two-field struct `{0x540001 int32, 0x540002 interval}`; a negative interval makes the writer panic
     ("interval cannot be negative") after the structure has been opened. -/
@@ -217,32 +210,52 @@ def goodMsg : Msg := { d := 0, tag := 0, v := .struct [.int 1, .int 1] }
 /-- the history: an encode that panics inside the structure (one element left open), recovered by the caller. -/
 def abortedHistory : List Op := [.encode badMsg { opened := 1 }]
 
-/-- 2d. **`C20_reuse_full` is false** (XML writer): after an aborted call `Clear` itself panics
-    (`xml.Encoder.Close`: "unclosed tag") and leaves the encoder closed, so the next `encode` panics
-    ("use of closed Encoder") where a new encoder succeeds. Reproduced on the real code by the `cache` engine
-    (`cache:reuse-after-panic:xml`); a second `Clear` repairs the encoder. -/
-theorem xml_reuse_full_false : ¬ C20_reuse_full := by
+/-- 2a is not vacuous on histories with aborted calls: the aborted call fails, `Clear` and the next call succeed,
+    on the XML back end as on the binary one. -/
+example : (runOps tinySchema .xml fresh (abortedHistory ++ [.clear, .encode goodMsg {}])).2
+    = [false, true, true] := by decide +kernel
+example : (runOps tinySchema .ttlv fresh (abortedHistory ++ [.clear, .encode goodMsg {}])).2
+    = [false, true, true] := by decide +kernel
+example : (runOps tinySchema .xml fresh [.encode goodMsg {}]).2 = [true] := by decide +kernel
+
+/-! ### what /repo 55f108f repaired: the OLD `xmlWriter.Clear` -/
+
+/-- 2d. **The old XML writer violated the full statement** (`oldXmlClearOp`: `Clear` began with
+    `panicOnErr(w.Close())`): after an aborted call `Clear` itself panicked (`xml.Encoder.Close`: "unclosed
+    tag") and left the encoder closed, so the next `encode` panicked ("use of closed Encoder") where a new
+    encoder succeeds; only a second `Clear` repaired it. Found by the `cache` engine on the real code as
+    `cache:reuse-after-panic:xml`; fixed by dropping the `Close`. -/
+theorem old_xml_clear_after_abort :
+    (runOpsOldXml tinySchema fresh (abortedHistory ++ [.clear, .encode goodMsg {}])).2 = [false, false, false] ∧
+    (runOpsOldXml tinySchema fresh (abortedHistory ++ [.clear, .encode goodMsg {}])).1.closed = true ∧
+    (runOpsOldXml tinySchema fresh [.encode goodMsg {}]).2 = [true] ∧
+    (runOpsOldXml tinySchema fresh (abortedHistory ++ [.clear, .clear, .encode goodMsg {}])).2
+      = [false, false, true, true] := by
+  decide +kernel
+
+/-- 2d'. hence the full statement was FALSE of the old XML writer… -/
+theorem old_xml_reuse_full_false :
+    ¬ (∀ (S : Schema) (h ops : List Op),
+        (runOpsOldXml S fresh (h ++ .clear :: ops)).1 = (runOpsOldXml S fresh ops).1) := by
   intro h
-  have := congrArg Encoder.closed (h tinySchema .xml abortedHistory [.encode goodMsg {}])
+  have := congrArg Encoder.closed (h tinySchema abortedHistory [.encode goodMsg {}])
   revert this
   decide +kernel
 
-example : (runOps tinySchema .xml fresh (abortedHistory ++ [.clear, .encode goodMsg {}])).2
-    = [false, false, false] := by decide +kernel
-example : (runOps tinySchema .xml fresh [.encode goodMsg {}]).2 = [true] := by decide +kernel
-example : (runOps tinySchema .xml fresh (abortedHistory ++ [.clear, .clear, .encode goodMsg {}])).2
-    = [false, false, true, true] := by decide +kernel
-/-- the other writers recover (instance of 2a). -/
-example : (runOps tinySchema .ttlv fresh (abortedHistory ++ [.clear, .encode goodMsg {}])).2
-    = [false, true, true] := by decide +kernel
-/-- the hypothesis of 2c holds of histories that matter: any history of successful calls, with any junk
-    annotations that leave nothing open. -/
+/-- 2d''. …and held of it only for histories in which no aborted call left an element open. -/
+theorem old_xml_reuse_partial (S : Schema) (h ops : List Op) (hj : NoOpenJunk h) :
+    runOpsOldXml S fresh (h ++ .clear :: ops) =
+      ((runOpsOldXml S fresh ops).1,
+       (runOpsOldXml S fresh h).2 ++ true :: (runOpsOldXml S fresh ops).2) :=
+  reuse_gen oldXmlClearOp S fresh h ops
+    (oldXmlClearOp_ok (Or.inr (runOpsOld_clean S h fresh ⟨rfl, rfl⟩ hj).1))
+
 example : NoOpenJunk [.encode goodMsg {}, .bytes, .clear, .encode goodMsg { items := [.int 1 1] }] := by
   intro op hop
   simp only [List.mem_cons, List.not_mem_nil, or_false] at hop
   rcases hop with rfl | rfl | rfl | rfl <;> trivial
 
-/-- 2e. after every `Clear` — even the one that panics — the version cell is empty. -/
+/-- 2e. after every `Clear` the version cell is empty. -/
 theorem clear_resets_cell (b : Backend) (st : Encoder) : (clearOp b st).1.cell = none :=
   clearOp_cell b st
 
